@@ -52,8 +52,12 @@ func Run(p *profile.Profile, lines []string) Out {
 		wr.Fail[fmt.Sprintf("fail%d", i)] = fmt.Errorf("scripted: cannot create file")
 	}
 	res := pp.Run(pp.Req{Args: []string{"src"}, Sources: map[string]*pp.Source{"src": {Prof: p}}, Lines: all, Writer: wr})
-	// un-redirected binary reports are saved as numbered temporary files (profile001..., at most 9999 of them)
-	if d := os.Getenv("PPROF_TMPDIR"); d != "" {
+	// un-redirected binary reports are saved as numbered temporary files (profile001... in the working directory, at most 9999 of them)
+	wd, _ := os.Getwd()
+	for _, d := range []string{os.Getenv("PPROF_TMPDIR"), wd} {
+		if d == "" {
+			continue
+		}
 		if ents, err := os.ReadDir(d); err == nil {
 			for _, en := range ents {
 				if strings.HasPrefix(en.Name(), "profile") {
